@@ -1,240 +1,469 @@
 /-
-Helper lemmas for C12: `_resolve_field_reference` (the three mutually recursive, fuelled
-functions `physical` / `members` / `resolveFRef` of the model) against the declarative member
-rules `MemberRule` of the spec: soundness, fuel monotonicity, completeness.
+Helper lemmas for C12: `_resolve_field_reference` (the functions `physLoop` / `physical` /
+`members` / `resolveFRef` of the model) against the declarative member rules `MemberRule` /
+`MemberFails` of the spec: totality of the alias-following loop (the visited list of fix
+22b80e8), monotonicity in the nesting budget, soundness, completeness.
+
+The loops `physLoop` and `members` take the result of the nested call as a parameter `res`; the
+lemmas about them are stated for an arbitrary `res` with the property needed, and instantiated
+with `resolveFRef E depth` by induction on `depth`.
 -/
 import Emboss.Spec.Scope
 set_option linter.unusedSimpArgs false
+set_option linter.unusedVariables false
 namespace Emboss.Scope
 
-/-! ### More fuel never changes a definite answer -/
+/-! ### Pigeonhole -/
 
-theorem fuel_mono (E : FEnv) : ∀ fuel : Nat,
-    (∀ fuel' o prev, fuel ≤ fuel' → physical E fuel o prev ≠ .inl .fuel →
-      physical E fuel' o prev = physical E fuel o prev) ∧
-    (∀ fuel' o prev rs acc, fuel ≤ fuel' → members E fuel o prev rs acc ≠ .fuel →
-      members E fuel' o prev rs acc = members E fuel o prev rs acc) ∧
-    (∀ fuel' i, fuel ≤ fuel' → resolveFRef E fuel i ≠ .fuel →
-      resolveFRef E fuel' i = resolveFRef E fuel i) := by
-  intro fuel
-  induction fuel with
-  | zero =>
-    refine ⟨?_, ?_, ?_⟩
-    · intro fuel' o prev _ h; simp [physical] at h
-    · intro fuel' o prev rs acc _ h; simp [members] at h
-    · intro fuel' i _ h; simp [resolveFRef] at h
-  | succ fuel ih =>
-    obtain ⟨P, M, R⟩ := ih
-    refine ⟨?_, ?_, ?_⟩
-    · intro fuel' o prev hle h
-      obtain ⟨f', rfl⟩ : ∃ f', fuel' = f' + 1 := ⟨fuel' - 1, by omega⟩
-      have hle' : fuel ≤ f' := by omega
-      simp only [physical] at h ⊢
-      cases hk : o.kind with
-      | module => simp only [hk]
-      | type => simp only [hk]
-      | value => simp only [hk]
-      | param => simp only [hk]
-      | field sh =>
-        cases sh with
-        | atomic t => simp only [hk]
-        | array => simp only [hk]
-        | virtOther => simp only [hk]
-        | virtAlias i =>
-          simp only [hk] at h ⊢
-          have hr : resolveFRef E fuel i ≠ .fuel := by
-            intro hr; rw [hr] at h; exact h rfl
-          rw [R f' i hle' hr]
-          cases hres : resolveFRef E fuel i with
+theorem nodup_subset_length_le {α : Type} [DecidableEq α] :
+    ∀ (l m : List α), l.Nodup → (∀ x ∈ l, x ∈ m) → l.length ≤ m.length := by
+  intro l
+  induction l with
+  | nil => intro m _ _; simp
+  | cons a l ih =>
+    intro m hn hs
+    have ha : a ∈ m := hs a (List.mem_cons_self ..)
+    have hn' := List.nodup_cons.1 hn
+    have h1 : l.length ≤ (m.erase a).length := by
+      apply ih _ hn'.2
+      intro x hx
+      have hxa : x ≠ a := fun h => hn'.1 (h ▸ hx)
+      exact (List.mem_erase_of_ne hxa).2 (hs x (List.mem_cons_of_mem _ hx))
+    rw [List.length_erase_of_mem ha] at h1
+    have : 0 < m.length := List.length_pos_of_mem ha
+    simp only [List.length_cons]
+    omega
+
+theorem findObject_mem {os : List Obj} {c : Path} {o : Obj} (h : findObject os c = some o) :
+    o ∈ os := List.mem_of_find?_eq_some h
+
+/-- The invariant of the alias-following loop: the fields visited so far are pairwise distinct
+definitions of the module and the remaining budget covers all the others. -/
+structure LoopInv (objs : List Obj) (n : Nat) (vis : List Obj) : Prop where
+  nodup : vis.Nodup
+  sub : ∀ x ∈ vis, x ∈ objs
+  budget : objs.length < n + vis.length
+
+theorem LoopInv.pos {objs : List Obj} {n : Nat} {vis : List Obj} (h : LoopInv objs n vis) :
+    0 < n := by
+  have := nodup_subset_length_le vis objs h.nodup h.sub
+  have := h.budget
+  omega
+
+theorem LoopInv.step {objs : List Obj} {n : Nat} {vis : List Obj} {o : Obj}
+    (h : LoopInv objs (n + 1) vis) (ho : o ∈ objs) (hv : o ∉ vis) : LoopInv objs n (o :: vis) :=
+  ⟨List.nodup_cons.2 ⟨hv, h.nodup⟩,
+   by intro x hx
+      rcases List.mem_cons.1 hx with rfl | hx
+      · exact ho
+      · exact h.sub x hx,
+   by have := h.budget; simp only [List.length_cons]; omega⟩
+
+theorem LoopInv.init (objs : List Obj) : LoopInv objs (objs.length + 1) [] :=
+  { nodup := List.nodup_nil
+    sub := fun x hx => nomatch hx
+    budget := by simp }
+
+/-! ### The loop budget is never used up (fix 22b80e8: the visited list) -/
+
+theorem physLoop_ne_fuel (objs : List Obj) (res : Nat → FRes) (hres : ∀ i, res i ≠ .fuel) :
+    ∀ (n : Nat) (o : Obj) (prev : PathElem) (vis : List Obj), LoopInv objs n vis → o ∈ objs →
+      physLoop objs res n o prev vis ≠ .inl .fuel := by
+  intro n
+  induction n with
+  | zero => intro o prev vis inv _; exact absurd inv.pos (by omega)
+  | succ n ih =>
+    intro o prev vis inv ho
+    simp only [physLoop]
+    split
+    · rename_i i hk
+      split
+      · exact fun h => by cases h
+      · rename_i hv
+        split
+        · split
+          · exact fun h => by cases h
+          · split
+            · rename_i o' hf
+              exact ih o' prev (o :: vis) (inv.step ho hv) (findObject_mem hf)
+            · exact fun h => by cases h
+        · rename_i h; exact absurd h (hres i)
+        · exact fun h => by cases h
+        · exact fun h => by cases h
+        · exact fun h => by cases h
+    · exact fun h => by cases h
+    · exact fun h => by cases h
+    · exact fun h => by cases h
+
+theorem members_ne_fuel (E : FEnv) (res : Nat → FRes) (hres : ∀ i, res i ≠ .fuel) :
+    ∀ (rs : List PathElem) (o : Obj) (prev : PathElem) (acc : List Path), o ∈ E.objs →
+      members E res o prev rs acc ≠ .fuel := by
+  intro rs
+  induction rs with
+  | nil => intro o prev acc _; simp [members]
+  | cons r rest ih =>
+    intro o prev acc ho
+    simp only [members]
+    split
+    · rename_i x hx
+      intro h
+      subst h
+      exact physLoop_ne_fuel E.objs res hres _ o prev [] (LoopInv.init _) ho hx
+    · split
+      · exact fun h => by cases h
+      · split
+        · exact fun h => by cases h
+        · split
+          · exact fun h => by cases h
+          · rename_i o' hf
+            exact ih o' r _ (findObject_mem hf)
+      · exact fun h => by cases h
+
+theorem resolveFRef_ne_fuel (E : FEnv) : ∀ (depth i : Nat), resolveFRef E depth i ≠ .fuel := by
+  intro depth
+  induction depth with
+  | zero => intro i; simp [resolveFRef]
+  | succ d ih =>
+    intro i
+    simp only [resolveFRef]
+    split
+    · split
+      · exact fun h => by cases h
+      · exact fun h => by cases h
+      · split
+        · exact fun h => by cases h
+        · rename_i o hf
+          exact members_ne_fuel E _ ih _ o _ _ (findObject_mem hf)
+    · exact fun h => by cases h
+
+/-! ### A deeper nesting budget never changes an answer that is not `recursion` -/
+
+/-- `res'` answers like `res` wherever `res` does not run out of nesting budget -/
+def Refines (res res' : Nat → FRes) : Prop := ∀ i, res i ≠ .recursion → res' i = res i
+
+theorem physLoop_refines (objs : List Obj) (res res' : Nat → FRes) (hr : Refines res res') :
+    ∀ (n : Nat) (o : Obj) (prev : PathElem) (vis : List Obj),
+      physLoop objs res n o prev vis ≠ .inl .recursion →
+      physLoop objs res' n o prev vis = physLoop objs res n o prev vis := by
+  intro n
+  induction n with
+  | zero => intro o prev vis _; simp [physLoop]
+  | succ n ih =>
+    intro o prev vis h
+    simp only [physLoop] at h ⊢
+    cases hk : o.kind with
+    | module => simp only [hk]
+    | type => simp only [hk]
+    | value => simp only [hk]
+    | param => simp only [hk]
+    | field sh =>
+      cases sh with
+      | atomic t => simp only [hk]
+      | array => simp only [hk]
+      | virtOther => simp only [hk]
+      | virtAlias i =>
+        simp only [hk] at h ⊢
+        by_cases hv : o ∈ vis
+        · simp only [hv, if_true]
+        · simp only [hv, if_false] at h ⊢
+          have hri : res i ≠ .recursion := by
+            intro hri; rw [hri] at h; exact h rfl
+          rw [hr i hri]
+          cases hres : res i with
           | ok cs =>
             simp only [hres] at h ⊢
             cases hl : cs.getLast? with
             | none => simp only [hl]
             | some c =>
               simp only [hl] at h ⊢
-              cases hf : findObject E.objs c with
+              cases hf : findObject objs c with
               | none => simp only [hf]
               | some o' =>
                 simp only [hf] at h ⊢
-                exact P f' o' prev hle' h
+                exact ih o' prev _ h
           | err e => simp only [hres]
           | bail => simp only [hres]
           | crash => simp only [hres]
-          | fuel => exact absurd hres hr
-    · intro fuel' o prev rs acc hle h
-      obtain ⟨f', rfl⟩ : ∃ f', fuel' = f' + 1 := ⟨fuel' - 1, by omega⟩
-      have hle' : fuel ≤ f' := by omega
-      cases rs with
-      | nil => simp only [members]
-      | cons r rest =>
-        simp only [members] at h ⊢
-        have hp : physical E fuel o prev ≠ .inl .fuel := by
-          intro hp; rw [hp] at h; exact h rfl
-        rw [P f' o prev hle' hp]
-        cases hres : physical E fuel o prev with
-        | inl res => simp only [hres]
-        | inr o1 =>
-          simp only [hres] at h ⊢
-          cases hk : o1.kind with
-          | module => simp only [hk]
-          | type => simp only [hk]
-          | value => simp only [hk]
-          | param => simp only [hk]
-          | field sh =>
-            cases sh with
-            | array => simp only [hk]
-            | virtOther => simp only [hk]
-            | virtAlias i => simp only [hk]
-            | atomic t =>
-              simp only [hk] at h ⊢
-              cases ht : E.typeCanon t with
-              | none => simp only [ht]
-              | some tc =>
-                simp only [ht] at h ⊢
-                cases hf : findObject E.objs (tc ++ [r.name]) with
-                | none => simp only [hf]
-                | some o' =>
-                  simp only [hf] at h ⊢
-                  exact M f' o' r rest _ hle' h
-    · intro fuel' i hle h
-      obtain ⟨f', rfl⟩ : ∃ f', fuel' = f' + 1 := ⟨fuel' - 1, by omega⟩
-      have hle' : fuel ≤ f' := by omega
-      simp only [resolveFRef] at h ⊢
-      cases hfr : E.frefs i with
-      | none => simp only [hfr]
-      | some fr =>
-        cases hh : E.headCanon i with
-        | none => simp only [hfr, hh]
-        | some hd =>
-          simp only [hfr, hh] at h ⊢
-          cases hp : fr.path with
-          | nil => simp only [hp]
-          | cons p0 rest =>
-            cases rest with
-            | nil => simp only [hp]
-            | cons r rest =>
-              simp only [hp] at h ⊢
-              cases hf : findObject E.objs hd with
-              | none => simp only [hf]
-              | some o =>
-                simp only [hf] at h ⊢
-                exact M f' o p0 (r :: rest) _ hle' h
+          | fuel => simp only [hres]
+          | recursion => exact absurd hres hri
 
-theorem resolveFRef_mono (E : FEnv) (fuel fuel' i : Nat) (hle : fuel ≤ fuel')
-    (h : resolveFRef E fuel i ≠ .fuel) : resolveFRef E fuel' i = resolveFRef E fuel i :=
-  (fuel_mono E fuel).2.2 fuel' i hle h
-
-/-! ### Soundness: what the functions bind is derivable by the rules -/
-
-theorem member_sound (E : FEnv) : ∀ fuel : Nat,
-    (∀ o prev p, physical E fuel o prev = .inr p → MemberRule E (.phys o p)) ∧
-    (∀ o prev rs acc cs, members E fuel o prev rs acc = .ok cs →
-      ∃ ms, cs = acc ++ ms ∧ MemberRule E (.mem o rs ms)) ∧
-    (∀ i cs, resolveFRef E fuel i = .ok cs → MemberRule E (.path i cs)) := by
-  intro fuel
-  induction fuel with
-  | zero =>
-    refine ⟨?_, ?_, ?_⟩
-    · intro o prev p h; simp [physical] at h
-    · intro o prev rs acc cs h; simp [members] at h
-    · intro i cs h; simp [resolveFRef] at h
-  | succ fuel ih =>
-    obtain ⟨P, M, R⟩ := ih
-    refine ⟨?_, ?_, ?_⟩
-    · intro o prev p h
-      simp only [physical] at h
-      cases hk : o.kind with
-      | module => simp [hk] at h
-      | type => simp [hk] at h
-      | value => simp [hk] at h
-      | param => simp [hk] at h
+theorem members_refines (E : FEnv) (res res' : Nat → FRes) (hr : Refines res res') :
+    ∀ (rs : List PathElem) (o : Obj) (prev : PathElem) (acc : List Path),
+      members E res o prev rs acc ≠ .recursion →
+      members E res' o prev rs acc = members E res o prev rs acc := by
+  intro rs
+  induction rs with
+  | nil => intro o prev acc _; simp only [members]
+  | cons r rest ih =>
+    intro o prev acc h
+    simp only [members, physical] at h ⊢
+    have hp : physLoop E.objs res (E.objs.length + 1) o prev [] ≠ .inl .recursion := by
+      intro hp; rw [hp] at h; exact h rfl
+    rw [physLoop_refines E.objs res res' hr _ o prev [] hp]
+    cases hres : physLoop E.objs res (E.objs.length + 1) o prev [] with
+    | inl x => simp only [hres]
+    | inr p =>
+      simp only [hres] at h ⊢
+      cases hk : p.kind with
+      | module => simp only [hk]
+      | type => simp only [hk]
+      | value => simp only [hk]
+      | param => simp only [hk]
       | field sh =>
         cases sh with
+        | array => simp only [hk]
+        | virtOther => simp only [hk]
+        | virtAlias i => simp only [hk]
         | atomic t =>
-          simp only [hk, Sum.inr.injEq] at h
-          subst h
-          exact MemberRule.physAtomic hk
-        | array =>
-          simp only [hk, Sum.inr.injEq] at h
-          subst h
-          exact MemberRule.physArray hk
-        | virtOther => simp [hk] at h
-        | virtAlias i =>
-          simp only [hk] at h
-          cases hres : resolveFRef E fuel i with
+          simp only [hk] at h ⊢
+          cases ht : E.typeCanon t with
+          | none => simp only [ht]
+          | some tc =>
+            simp only [ht] at h ⊢
+            cases hf : findObject E.objs (tc ++ [r.name]) with
+            | none => simp only [hf]
+            | some o' =>
+              simp only [hf] at h ⊢
+              exact ih o' r _ h
+
+theorem resolveFRef_mono (E : FEnv) : ∀ (depth depth' i : Nat), depth ≤ depth' →
+    resolveFRef E depth i ≠ .recursion → resolveFRef E depth' i = resolveFRef E depth i := by
+  intro depth
+  induction depth with
+  | zero => intro d' i _ h; simp [resolveFRef] at h
+  | succ d ih =>
+    intro d' i hle h
+    obtain ⟨d'', rfl⟩ : ∃ d'', d' = d'' + 1 := ⟨d' - 1, by omega⟩
+    have hr : Refines (resolveFRef E d) (resolveFRef E d'') :=
+      fun j hj => ih d'' j (by omega) hj
+    simp only [resolveFRef] at h ⊢
+    cases hfr : E.frefs i with
+    | none => simp only [hfr]
+    | some fr =>
+      cases hh : E.headCanon i with
+      | none => simp only [hfr, hh]
+      | some hd =>
+        simp only [hfr, hh] at h ⊢
+        cases hp : fr.path with
+        | nil => simp only [hp]
+        | cons p0 rest =>
+          cases rest with
+          | nil => simp only [hp]
+          | cons r rest =>
+            simp only [hp] at h ⊢
+            cases hf : findObject E.objs hd with
+            | none => simp only [hf]
+            | some o =>
+              simp only [hf] at h ⊢
+              exact members_refines E _ _ hr _ o p0 _ h
+
+/-! ### Soundness: what the functions bind / reject is derivable by the rules -/
+
+theorem chain_snoc (E : FEnv) {o0 o o' : Obj} {via : List Obj}
+    (h : MemberRule E (.chain o0 via o)) (hr : MemberRule E (.renames o o')) :
+    MemberRule E (.chain o0 (via ++ [o]) o') := by
+  generalize hj : MemberJudgement.chain o0 via o = j at h
+  induction h generalizing o0 via with
+  | chainNil => cases hj; exact MemberRule.chainCons hr MemberRule.chainNil
+  | chainCons h1 _ _ ih2 => cases hj; exact MemberRule.chainCons h1 (ih2 rfl)
+  | _ => cases hj
+
+/-- `res` only binds what the rules derive -/
+def ResSound (E : FEnv) (res : Nat → FRes) : Prop := ∀ i cs, res i = .ok cs → MemberRule E (.path i cs)
+
+/-- The loop, started anywhere on a chain of renamings from `o0` whose passed fields are the
+visited ones: a physical field it returns is the end of a chain through distinct fields, an
+error it reports is one of the three ways the chain can end badly. -/
+theorem physLoop_sound (E : FEnv) (res : Nat → FRes) (hs : ResSound E res) (o0 : Obj)
+    (prev : PathElem) :
+    ∀ (n : Nat) (o : Obj) (via vis : List Obj), MemberRule E (.chain o0 via o) → via.Nodup →
+      (∀ x, x ∈ vis ↔ x ∈ via) →
+      (∀ p, physLoop E.objs res n o prev vis = .inr p →
+        ∃ via', MemberRule E (.chain o0 via' p) ∧ via'.Nodup ∧
+          ∃ sh, p.kind = .field sh ∧ sh ≠ .virtOther ∧ ∀ i, sh ≠ .virtAlias i) ∧
+      (∀ e, physLoop E.objs res n o prev vis = .inl (.err e) →
+        MemberFails E (.phys o0 prev e)) := by
+  intro n
+  induction n with
+  | zero =>
+    intro o via vis _ _ _
+    exact ⟨fun p h => by simp [physLoop] at h, fun e h => by simp [physLoop] at h⟩
+  | succ n ih =>
+    intro o via vis hc hn hv
+    simp only [physLoop]
+    cases hk : o.kind with
+    | module =>
+      refine ⟨fun p h => by simp at h, fun e h => ?_⟩
+      simp only [Sum.inl.injEq, FRes.err.injEq] at h; subst h
+      exact MemberFails.physNonField hc (by intro sh; rw [hk]; exact fun h => by cases h)
+    | type =>
+      refine ⟨fun p h => by simp at h, fun e h => ?_⟩
+      simp only [Sum.inl.injEq, FRes.err.injEq] at h; subst h
+      exact MemberFails.physNonField hc (by intro sh; rw [hk]; exact fun h => by cases h)
+    | value =>
+      refine ⟨fun p h => by simp at h, fun e h => ?_⟩
+      simp only [Sum.inl.injEq, FRes.err.injEq] at h; subst h
+      exact MemberFails.physNonField hc (by intro sh; rw [hk]; exact fun h => by cases h)
+    | param =>
+      refine ⟨fun p h => by simp at h, fun e h => ?_⟩
+      simp only [Sum.inl.injEq, FRes.err.injEq] at h; subst h
+      exact MemberFails.physNonField hc (by intro sh; rw [hk]; exact fun h => by cases h)
+    | field sh =>
+      cases sh with
+      | atomic t =>
+        refine ⟨fun p h => ?_, fun e h => by simp at h⟩
+        simp only [Sum.inr.injEq] at h; subst h
+        exact ⟨via, hc, hn, _, hk, by simp, by simp⟩
+      | array =>
+        refine ⟨fun p h => ?_, fun e h => by simp at h⟩
+        simp only [Sum.inr.injEq] at h; subst h
+        exact ⟨via, hc, hn, _, hk, by simp, by simp⟩
+      | virtOther =>
+        refine ⟨fun p h => by simp at h, fun e h => ?_⟩
+        simp only [Sum.inl.injEq, FRes.err.injEq] at h; subst h
+        exact MemberFails.physOther hc hk
+      | virtAlias i =>
+        by_cases hvis : o ∈ vis
+        · simp only [hvis, if_true]
+          refine ⟨fun p h => by simp at h, fun e h => ?_⟩
+          simp only [Sum.inl.injEq, FRes.err.injEq] at h; subst h
+          exact MemberFails.physCycle hc ((hv o).1 hvis)
+        · simp only [hvis, if_false]
+          cases hres : res i with
           | ok cs =>
-            simp only [hres] at h
+            simp only []
             cases hl : cs.getLast? with
-            | none => simp [hl] at h
+            | none => exact ⟨fun p h => by simp at h, fun e h => by simp at h⟩
             | some c =>
-              simp only [hl] at h
+              simp only []
               cases hf : findObject E.objs c with
-              | none => simp [hf] at h
+              | none => exact ⟨fun p h => by simp at h, fun e h => by simp at h⟩
               | some o' =>
-                simp only [hf] at h
-                exact MemberRule.physAlias hk (R i cs hres) hl hf (P o' prev p h)
-          | err e => simp [hres] at h
-          | bail => simp [hres] at h
-          | crash => simp [hres] at h
-          | fuel => simp [hres] at h
-    · intro o prev rs acc cs h
-      cases rs with
-      | nil =>
-        simp only [members, FRes.ok.injEq] at h
-        exact ⟨[], by simp [h], MemberRule.memNil⟩
-      | cons r rest =>
-        simp only [members] at h
-        cases hres : physical E fuel o prev with
-        | inl res =>
-          simp only [hres] at h
-          -- `physical` never answers `.inl (.ok _)`
-          exfalso
-          subst h
-          clear P M R
-          induction fuel generalizing o with
-          | zero => simp [physical] at hres
-          | succ fuel ih2 =>
-            simp only [physical] at hres
-            split at hres
-            · split at hres
-              · split at hres
-                · cases hres
-                · split at hres
-                  · exact ih2 _ hres
-                  · cases hres
-              · cases hres
-              · cases hres
-              · cases hres
-            · cases hres
-            · cases hres
-            · cases hres
-        | inr o1 =>
-          simp only [hres] at h
-          cases hk : o1.kind with
-          | module => simp [hk] at h
-          | type => simp [hk] at h
-          | value => simp [hk] at h
-          | param => simp [hk] at h
-          | field sh =>
-            cases sh with
-            | array => simp [hk] at h
-            | virtOther => simp [hk] at h
-            | virtAlias i => simp [hk] at h
-            | atomic t =>
-              simp only [hk] at h
-              cases ht : E.typeCanon t with
-              | none => simp [ht] at h
-              | some tc =>
-                simp only [ht] at h
-                cases hf : findObject E.objs (tc ++ [r.name]) with
-                | none => simp [hf] at h
-                | some o' =>
-                  simp only [hf] at h
-                  obtain ⟨ms, hcs, hms⟩ := M o' r rest _ cs h
-                  exact ⟨(tc ++ [r.name]) :: ms, by simp [hcs],
-                    MemberRule.memCons (P o prev o1 hres) hk ht hf hms⟩
-    · intro i cs h
-      simp only [resolveFRef] at h
+                simp only []
+                have hren : MemberRule E (.renames o o') :=
+                  MemberRule.renames hk (hs i cs hres) hl hf
+                have hnv : o ∉ via := fun h => hvis ((hv o).2 h)
+                refine ih o' (via ++ [o]) (o :: vis) (chain_snoc E hc hren) ?_ ?_
+                · rw [List.nodup_append]
+                  refine ⟨hn, by simp, ?_⟩
+                  intro a ha b hb
+                  rw [List.mem_singleton] at hb
+                  subst hb
+                  exact fun h => hnv (h ▸ ha)
+                · intro x
+                  simp only [List.mem_cons, List.mem_append, List.not_mem_nil, or_false, hv x]
+                  exact Or.comm
+          | err e' => exact ⟨fun p h => by simp at h, fun e h => by simp at h⟩
+          | bail => exact ⟨fun p h => by simp at h, fun e h => by simp at h⟩
+          | crash => exact ⟨fun p h => by simp at h, fun e h => by simp at h⟩
+          | fuel => exact ⟨fun p h => by simp at h, fun e h => by simp at h⟩
+          | recursion => exact ⟨fun p h => by simp at h, fun e h => by simp at h⟩
+
+theorem physical_sound (E : FEnv) (res : Nat → FRes) (hs : ResSound E res) (o : Obj)
+    (prev : PathElem) :
+    (∀ p, physical E res o prev = .inr p →
+      ∃ via, MemberRule E (.chain o via p) ∧ via.Nodup ∧
+        ∃ sh, p.kind = .field sh ∧ sh ≠ .virtOther ∧ ∀ i, sh ≠ .virtAlias i) ∧
+    (∀ e, physical E res o prev = .inl (.err e) → MemberFails E (.phys o prev e)) :=
+  physLoop_sound E res hs o prev _ o [] [] MemberRule.chainNil List.nodup_nil (fun x => Iff.rfl)
+
+/-- `physLoop` never answers `.inl (.ok _)` -/
+theorem physLoop_not_ok (objs : List Obj) (res : Nat → FRes) :
+    ∀ (n : Nat) (o : Obj) (prev : PathElem) (vis : List Obj) (cs : List Path),
+      physLoop objs res n o prev vis ≠ .inl (.ok cs) := by
+  intro n
+  induction n with
+  | zero => intro o prev vis cs; simp [physLoop]
+  | succ n ih =>
+    intro o prev vis cs
+    simp only [physLoop]
+    split
+    · split
+      · exact fun h => by cases h
+      · split
+        · split
+          · exact fun h => by cases h
+          · split
+            · exact ih _ _ _ _
+            · exact fun h => by cases h
+        · exact fun h => by cases h
+        · exact fun h => by cases h
+        · exact fun h => by cases h
+        · exact fun h => by cases h
+    · exact fun h => by cases h
+    · exact fun h => by cases h
+    · exact fun h => by cases h
+
+theorem members_sound (E : FEnv) (res : Nat → FRes) (hs : ResSound E res) :
+    ∀ (rs : List PathElem) (o : Obj) (prev : PathElem) (acc : List Path),
+      (∀ cs, members E res o prev rs acc = .ok cs →
+        ∃ ms, cs = acc ++ ms ∧ MemberRule E (.mem o rs ms)) ∧
+      (∀ e, members E res o prev rs acc = .err e → MemberFails E (.mem o prev rs e)) := by
+  intro rs
+  induction rs with
+  | nil =>
+    intro o prev acc
+    refine ⟨fun cs h => ?_, fun e h => by simp [members] at h⟩
+    simp only [members, FRes.ok.injEq] at h
+    exact ⟨[], by simp [h], MemberRule.memNil⟩
+  | cons r rest ih =>
+    intro o prev acc
+    obtain ⟨SP, SE⟩ := physical_sound E res hs o prev
+    simp only [members]
+    cases hres : physical E res o prev with
+    | inl x =>
+      simp only []
+      refine ⟨fun cs h => ?_, fun e h => ?_⟩
+      · subst h
+        exact absurd hres (physLoop_not_ok _ _ _ _ _ _ _)
+      · subst h
+        exact MemberFails.memPhys (SE e hres)
+    | inr p =>
+      simp only []
+      obtain ⟨via, hc, hn, _⟩ := SP p hres
+      cases hk : p.kind with
+      | module => exact ⟨fun cs h => by simp at h, fun e h => by simp at h⟩
+      | type => exact ⟨fun cs h => by simp at h, fun e h => by simp at h⟩
+      | value => exact ⟨fun cs h => by simp at h, fun e h => by simp at h⟩
+      | param => exact ⟨fun cs h => by simp at h, fun e h => by simp at h⟩
+      | field sh =>
+        cases sh with
+        | array =>
+          refine ⟨fun cs h => by simp at h, fun e h => ?_⟩
+          simp only [FRes.err.injEq] at h; subst h
+          exact MemberFails.memArray hc hn hk
+        | virtOther => exact ⟨fun cs h => by simp at h, fun e h => by simp at h⟩
+        | virtAlias i => exact ⟨fun cs h => by simp at h, fun e h => by simp at h⟩
+        | atomic t =>
+          simp only []
+          cases ht : E.typeCanon t with
+          | none => exact ⟨fun cs h => by simp at h, fun e h => by simp at h⟩
+          | some tc =>
+            simp only []
+            cases hf : findObject E.objs (tc ++ [r.name]) with
+            | none =>
+              refine ⟨fun cs h => by simp at h, fun e h => ?_⟩
+              simp only [FRes.err.injEq] at h; subst h
+              exact MemberFails.memMissing hc hn hk ht hf
+            | some o' =>
+              simp only []
+              obtain ⟨M1, M2⟩ := ih o' r (acc ++ [tc ++ [r.name]])
+              refine ⟨fun cs h => ?_, fun e h => ?_⟩
+              · obtain ⟨ms, hcs, hms⟩ := M1 cs h
+                exact ⟨(tc ++ [r.name]) :: ms, by simp [hcs],
+                  MemberRule.memCons hc hn hk ht hf hms⟩
+              · exact MemberFails.memLater hc hn hk ht hf (M2 e h)
+
+theorem resolveFRef_sound (E : FEnv) : ∀ depth : Nat,
+    (∀ i cs, resolveFRef E depth i = .ok cs → MemberRule E (.path i cs)) ∧
+    (∀ i e, resolveFRef E depth i = .err e → MemberFails E (.path i e)) := by
+  intro depth
+  induction depth with
+  | zero => exact ⟨fun i cs h => by simp [resolveFRef] at h, fun i e h => by simp [resolveFRef] at h⟩
+  | succ d ih =>
+    have hs : ResSound E (resolveFRef E d) := ih.1
+    refine ⟨fun i cs h => ?_, fun i e h => ?_⟩
+    · simp only [resolveFRef] at h
       cases hfr : E.frefs i with
       | none => simp [hfr] at h
       | some fr =>
@@ -256,153 +485,10 @@ theorem member_sound (E : FEnv) : ∀ fuel : Nat,
               | none => simp [hf] at h
               | some o =>
                 simp only [hf] at h
-                obtain ⟨ms, hcs, hms⟩ := M o p0 (r :: rest) [hd] cs h
+                obtain ⟨ms, hcs, hms⟩ := (members_sound E _ hs (r :: rest) o p0 [hd]).1 cs h
                 subst hcs
                 exact MemberRule.pathMulti hfr hh hp hf hms
-
-/-! ### Completeness: whatever the rules derive, the functions compute (given enough fuel) -/
-
-def Complete (E : FEnv) : MemberJudgement → Prop
-  | .phys o p => ∀ prev, ∃ fuel, physical E fuel o prev = .inr p
-  | .mem o rs ms => ∀ prev acc, ∃ fuel, members E fuel o prev rs acc = .ok (acc ++ ms)
-  | .path i cs => ∃ fuel, resolveFRef E fuel i = .ok cs
-
-theorem member_complete (E : FEnv) (j : MemberJudgement) (h : MemberRule E j) : Complete E j := by
-  induction h with
-  | physAtomic hk =>
-    intro prev
-    exact ⟨1, by simp only [physical, hk]⟩
-  | physArray hk =>
-    intro prev
-    exact ⟨1, by simp only [physical, hk]⟩
-  | @physAlias o i cs c o' p hk _ hl hf _ ih1 ih2 =>
-    intro prev
-    obtain ⟨f1, h1⟩ := ih1
-    obtain ⟨f2, h2⟩ := ih2 prev
-    refine ⟨max f1 f2 + 1, ?_⟩
-    have h1' : resolveFRef E (max f1 f2) i = .ok cs := by
-      rw [(fuel_mono E f1).2.2 _ i (Nat.le_max_left ..) (by rw [h1]; exact fun h => by cases h), h1]
-    have h2' : physical E (max f1 f2) o' prev = .inr p := by
-      rw [(fuel_mono E f2).1 _ o' prev (Nat.le_max_right ..) (by rw [h2]; exact fun h => by cases h), h2]
-    simp only [physical, hk, h1', hl, hf, h2']
-  | memNil =>
-    intro prev acc
-    exact ⟨1, by simp [members]⟩
-  | @memCons o p t tc r o' rest cs _ hk ht hf _ ih1 ih2 =>
-    intro prev acc
-    obtain ⟨f1, h1⟩ := ih1 prev
-    obtain ⟨f2, h2⟩ := ih2 r (acc ++ [tc ++ [r.name]])
-    refine ⟨max f1 f2 + 1, ?_⟩
-    have h1' : physical E (max f1 f2) o prev = .inr p := by
-      rw [(fuel_mono E f1).1 _ o prev (Nat.le_max_left ..) (by rw [h1]; exact fun h => by cases h), h1]
-    have h2' : members E (max f1 f2) o' r rest (acc ++ [tc ++ [r.name]]) =
-        .ok (acc ++ [tc ++ [r.name]] ++ cs) := by
-      rw [(fuel_mono E f2).2.1 _ o' r rest _ (Nat.le_max_right ..)
-        (by rw [h2]; exact fun h => by cases h), h2]
-    simp only [members, h1', hk, ht, hf, h2', List.append_assoc, List.singleton_append]
-  | pathSingle hfr hh hp =>
-    exact ⟨1, by simp only [resolveFRef, hfr, hh, hp]⟩
-  | @pathMulti i fr hd p0 r rest o cs hfr hh hp hf _ ih =>
-    obtain ⟨f, h⟩ := ih p0 [hd]
-    exact ⟨f + 1, by simp only [resolveFRef, hfr, hh, hp, hf, h, List.singleton_append]⟩
-
-/-! ### The errors: sound and complete against `MemberFails` -/
-
-theorem member_fail_sound (E : FEnv) : ∀ fuel : Nat,
-    (∀ o prev e, physical E fuel o prev = .inl (.err e) → MemberFails E (.phys o prev e)) ∧
-    (∀ o prev rs acc e, members E fuel o prev rs acc = .err e → MemberFails E (.mem o prev rs e)) ∧
-    (∀ i e, resolveFRef E fuel i = .err e → MemberFails E (.path i e)) := by
-  intro fuel
-  induction fuel with
-  | zero =>
-    refine ⟨?_, ?_, ?_⟩
-    · intro o prev e h; simp [physical] at h
-    · intro o prev rs acc e h; simp [members] at h
-    · intro i e h; simp [resolveFRef] at h
-  | succ fuel ih =>
-    obtain ⟨P, M, R⟩ := ih
-    obtain ⟨SP, SM, SR⟩ := member_sound E fuel
-    refine ⟨?_, ?_, ?_⟩
-    · intro o prev e h
-      simp only [physical] at h
-      cases hk : o.kind with
-      | module =>
-        simp only [hk, Sum.inl.injEq, FRes.err.injEq] at h; subst h
-        exact MemberFails.physNonField (by intro sh; rw [hk]; exact fun h => by cases h)
-      | type =>
-        simp only [hk, Sum.inl.injEq, FRes.err.injEq] at h; subst h
-        exact MemberFails.physNonField (by intro sh; rw [hk]; exact fun h => by cases h)
-      | value =>
-        simp only [hk, Sum.inl.injEq, FRes.err.injEq] at h; subst h
-        exact MemberFails.physNonField (by intro sh; rw [hk]; exact fun h => by cases h)
-      | param =>
-        simp only [hk, Sum.inl.injEq, FRes.err.injEq] at h; subst h
-        exact MemberFails.physNonField (by intro sh; rw [hk]; exact fun h => by cases h)
-      | field sh =>
-        cases sh with
-        | atomic t => simp [hk] at h
-        | array => simp [hk] at h
-        | virtOther =>
-          simp only [hk, Sum.inl.injEq, FRes.err.injEq] at h; subst h
-          exact MemberFails.physOther hk
-        | virtAlias i =>
-          simp only [hk] at h
-          cases hres : resolveFRef E fuel i with
-          | ok cs =>
-            simp only [hres] at h
-            cases hl : cs.getLast? with
-            | none => simp [hl] at h
-            | some c =>
-              simp only [hl] at h
-              cases hf : findObject E.objs c with
-              | none => simp [hf] at h
-              | some o' =>
-                simp only [hf] at h
-                exact MemberFails.physAlias hk (SR i cs hres) hl hf (P o' prev e h)
-          | err e' => simp [hres] at h
-          | bail => simp [hres] at h
-          | crash => simp [hres] at h
-          | fuel => simp [hres] at h
-    · intro o prev rs acc e h
-      cases rs with
-      | nil => simp [members] at h
-      | cons r rest =>
-        simp only [members] at h
-        cases hres : physical E fuel o prev with
-        | inl res =>
-          simp only [hres] at h
-          subst h
-          exact MemberFails.memPhys (P o prev e hres)
-        | inr o1 =>
-          simp only [hres] at h
-          have hph := SP o prev o1 hres
-          cases hk : o1.kind with
-          | module => simp [hk] at h
-          | type => simp [hk] at h
-          | value => simp [hk] at h
-          | param => simp [hk] at h
-          | field sh =>
-            cases sh with
-            | array =>
-              simp only [hk, FRes.err.injEq] at h; subst h
-              exact MemberFails.memArray hph hk
-            | virtOther => simp [hk] at h
-            | virtAlias i => simp [hk] at h
-            | atomic t =>
-              simp only [hk] at h
-              cases ht : E.typeCanon t with
-              | none => simp [ht] at h
-              | some tc =>
-                simp only [ht] at h
-                cases hf : findObject E.objs (tc ++ [r.name]) with
-                | none =>
-                  simp only [hf, FRes.err.injEq] at h; subst h
-                  exact MemberFails.memMissing hph hk ht hf
-                | some o' =>
-                  simp only [hf] at h
-                  exact MemberFails.memLater hph hk ht hf (M o' r rest _ e h)
-    · intro i e h
-      simp only [resolveFRef] at h
+    · simp only [resolveFRef] at h
       cases hfr : E.frefs i with
       | none => simp [hfr] at h
       | some fr =>
@@ -423,63 +509,205 @@ theorem member_fail_sound (E : FEnv) : ∀ fuel : Nat,
                 exact MemberFails.pathNoHead hfr hh hp hf
               | some o =>
                 simp only [hf] at h
-                exact MemberFails.pathMem hfr hh hp hf (M o p0 (r :: rest) [hd] e h)
+                exact MemberFails.pathMem hfr hh hp hf
+                  ((members_sound E _ hs (r :: rest) o p0 [hd]).2 e h)
+
+/-! ### Completeness: whatever the rules derive, the functions compute (given enough nesting budget) -/
+
+/-- a chain of renamings as the loop sees it: every step is an answer of the nested call -/
+inductive Follows (objs : List Obj) (res : Nat → FRes) : Obj → List Obj → Obj → Prop
+  | nil {o} : Follows objs res o [] o
+  | cons {o i cs c o' via p} : o.kind = .field (.virtAlias i) → res i = .ok cs →
+      cs.getLast? = some c → findObject objs c = some o' → Follows objs res o' via p →
+      Follows objs res o (o :: via) p
+
+theorem Follows.via_kind {objs : List Obj} {res : Nat → FRes} {o p : Obj} {via : List Obj}
+    (h : Follows objs res o via p) : ∀ x ∈ via, ∃ i, x.kind = .field (.virtAlias i) := by
+  induction h with
+  | nil => intro x hx; cases hx
+  | cons hk _ _ _ _ ih =>
+    intro x hx
+    rcases List.mem_cons.1 hx with rfl | hx
+    · exact ⟨_, hk⟩
+    · exact ih x hx
+
+/-- Running the loop along a chain: either it reports the noncomposite error on the way (only
+when the chain passes a field twice or a field already visited), or it arrives at the end of the
+chain with every field of the chain visited. -/
+theorem follows_run (objs : List Obj) (res : Nat → FRes) (prev : PathElem) {o p : Obj}
+    {via : List Obj} (h : Follows objs res o via p) :
+    ∀ (n : Nat) (vis : List Obj), LoopInv objs n vis → o ∈ objs →
+      (physLoop objs res n o prev vis = .inl (.err (Err.noncomposite prev.name prev.rloc)) ∧
+        ¬ (via.Nodup ∧ ∀ x ∈ via, x ∉ vis)) ∨
+      (∃ n' vis', LoopInv objs n' vis' ∧ p ∈ objs ∧ (∀ x ∈ vis, x ∈ vis') ∧
+        (∀ x ∈ via, x ∈ vis') ∧
+        physLoop objs res n o prev vis = physLoop objs res n' p prev vis') := by
+  induction h with
+  | nil =>
+    intro n vis inv ho
+    exact Or.inr ⟨n, vis, inv, ho, fun x hx => hx, (fun x hx => nomatch hx), rfl⟩
+  | @cons o i cs c o' via p hk hres hl hf _ ih =>
+    intro n vis inv ho
+    obtain ⟨n0, rfl⟩ : ∃ n0, n = n0 + 1 := ⟨n - 1, by have := inv.pos; omega⟩
+    by_cases hv : o ∈ vis
+    · left
+      refine ⟨by simp only [physLoop, hk, hv, if_true], ?_⟩
+      intro hh
+      exact hh.2 o (List.mem_cons_self ..) hv
+    · have hstep : physLoop objs res (n0 + 1) o prev vis = physLoop objs res n0 o' prev (o :: vis) := by
+        simp only [physLoop, hk, hv, if_false, hres, hl, hf]
+      rcases ih n0 (o :: vis) (inv.step ho hv) (findObject_mem hf) with ⟨he, hnot⟩ | ⟨n', vis', inv', hp, hsub, hvia, heq⟩
+      · left
+        refine ⟨by rw [hstep, he], ?_⟩
+        intro hh
+        have hnc := List.nodup_cons.1 hh.1
+        apply hnot
+        refine ⟨hnc.2, ?_⟩
+        intro x hx hmem
+        rcases List.mem_cons.1 hmem with rfl | hmem
+        · exact hnc.1 hx
+        · exact hh.2 x (List.mem_cons_of_mem _ hx) hmem
+      · right
+        refine ⟨n', vis', inv', hp, fun x hx => hsub x (List.mem_cons_of_mem _ hx), ?_, by rw [hstep, heq]⟩
+        intro x hx
+        rcases List.mem_cons.1 hx with rfl | hx
+        · exact hsub _ (List.mem_cons_self ..)
+        · exact hvia x hx
+
+theorem physLoop_end_nonfield (objs : List Obj) (res : Nat → FRes) (prev : PathElem) {n : Nat}
+    {vis : List Obj} {p : Obj} (inv : LoopInv objs n vis) (hk : ∀ sh, p.kind ≠ .field sh) :
+    physLoop objs res n p prev vis = .inl (.err (Err.noncomposite prev.name prev.rloc)) := by
+  obtain ⟨n0, rfl⟩ : ∃ n0, n = n0 + 1 := ⟨n - 1, by have := inv.pos; omega⟩
+  simp only [physLoop]
+  cases hk' : p.kind with
+  | field sh => exact absurd hk' (hk sh)
+  | module => rfl
+  | type => rfl
+  | value => rfl
+  | param => rfl
+
+/-- From the start of the loop (nothing visited) along a chain through distinct fields. -/
+theorem physical_follows (E : FEnv) (res : Nat → FRes) (prev : PathElem) {o p : Obj}
+    {via : List Obj} (h : Follows E.objs res o via p) (ho : o ∈ E.objs) (hn : via.Nodup) :
+    ∃ n' vis', LoopInv E.objs n' vis' ∧ (∀ x ∈ via, x ∈ vis') ∧
+      physical E res o prev = physLoop E.objs res n' p prev vis' := by
+  rcases follows_run E.objs res prev h _ [] (LoopInv.init _) ho with ⟨_, hnot⟩ | ⟨n', vis', inv', _, _, hvia, heq⟩
+  · exact absurd ⟨hn, (fun x _ hx => nomatch hx)⟩ hnot
+  · exact ⟨n', vis', inv', hvia, heq⟩
+
+theorem physical_follows_phys (E : FEnv) (res : Nat → FRes) (prev : PathElem) {o p : Obj}
+    {via : List Obj} (h : Follows E.objs res o via p) (ho : o ∈ E.objs) (hn : via.Nodup)
+    (hk : (∃ t, p.kind = .field (.atomic t)) ∨ p.kind = .field .array) :
+    physical E res o prev = .inr p := by
+  obtain ⟨n', vis', inv', _, heq⟩ := physical_follows E res prev h ho hn
+  obtain ⟨n0, rfl⟩ : ∃ n0, n' = n0 + 1 := ⟨n' - 1, by have := inv'.pos; omega⟩
+  rw [heq]
+  rcases hk with ⟨t, hk⟩ | hk <;> simp only [physLoop, hk]
+
+/-- Whatever way the chain ends badly — or passes a field twice —, the answer is the one
+noncomposite error. -/
+theorem physical_follows_err (E : FEnv) (res : Nat → FRes) (prev : PathElem) {o p : Obj}
+    {via : List Obj} (h : Follows E.objs res o via p) (ho : o ∈ E.objs)
+    (hk : (∀ sh, p.kind ≠ .field sh) ∨ p.kind = .field .virtOther ∨ p ∈ via) :
+    physical E res o prev = .inl (.err (Err.noncomposite prev.name prev.rloc)) := by
+  rcases follows_run E.objs res prev h _ [] (LoopInv.init _) ho with ⟨he, _⟩ | ⟨n', vis', inv', _, _, hvia, heq⟩
+  · exact he
+  · unfold physical
+    rw [heq]
+    rcases hk with hk | hk | hk
+    · exact physLoop_end_nonfield _ _ _ inv' hk
+    · obtain ⟨n0, rfl⟩ : ∃ n0, n' = n0 + 1 := ⟨n' - 1, by have := inv'.pos; omega⟩
+      simp only [physLoop, hk]
+    · obtain ⟨n0, rfl⟩ : ∃ n0, n' = n0 + 1 := ⟨n' - 1, by have := inv'.pos; omega⟩
+      obtain ⟨i, hki⟩ := h.via_kind p hk
+      simp only [physLoop, hki, hvia p hk, if_true]
+
+def Complete (E : FEnv) : MemberJudgement → Prop
+  | .renames o o' => ∃ d, ∀ d', d ≤ d' → ∃ i cs c, o.kind = .field (.virtAlias i) ∧
+      resolveFRef E d' i = .ok cs ∧ cs.getLast? = some c ∧ findObject E.objs c = some o'
+  | .chain o via p => ∃ d, ∀ d', d ≤ d' → Follows E.objs (resolveFRef E d') o via p
+  | .mem o rs ms => ∃ d, ∀ d', d ≤ d' → ∀ prev acc, o ∈ E.objs →
+      members E (resolveFRef E d') o prev rs acc = .ok (acc ++ ms)
+  | .path i cs => ∃ d, ∀ d', d ≤ d' → resolveFRef E d' i = .ok cs
+
+theorem member_complete (E : FEnv) (j : MemberJudgement) (h : MemberRule E j) : Complete E j := by
+  induction h with
+  | @renames o i cs c o' hk _ hl hf ih =>
+    obtain ⟨d, hd⟩ := ih
+    exact ⟨d, fun d' hle => ⟨i, cs, c, hk, hd d' hle, hl, hf⟩⟩
+  | chainNil => exact ⟨0, fun _ _ => Follows.nil⟩
+  | chainCons _ _ ih1 ih2 =>
+    obtain ⟨d1, h1⟩ := ih1
+    obtain ⟨d2, h2⟩ := ih2
+    refine ⟨max d1 d2, fun d' hle => ?_⟩
+    obtain ⟨i, cs, c, hk, hr, hl, hf⟩ := h1 d' (by omega)
+    exact Follows.cons hk hr hl hf (h2 d' (by omega))
+  | memNil => exact ⟨0, fun d' _ prev acc _ => by simp [members]⟩
+  | @memCons o via p t tc r o' rest cs _ hn hk ht hf _ ih1 ih2 =>
+    obtain ⟨d1, h1⟩ := ih1
+    obtain ⟨d2, h2⟩ := ih2
+    refine ⟨max d1 d2, fun d' hle prev acc ho => ?_⟩
+    have hp := physical_follows_phys E _ prev (h1 d' (by omega)) ho hn (Or.inl ⟨t, hk⟩)
+    have hm := h2 d' (by omega) r (acc ++ [tc ++ [r.name]]) (findObject_mem hf)
+    simp only [members, hp, hk, ht, hf, hm, List.append_assoc, List.singleton_append]
+  | pathSingle hfr hh hp =>
+    refine ⟨1, fun d' hle => ?_⟩
+    obtain ⟨d'', rfl⟩ : ∃ d'', d' = d'' + 1 := ⟨d' - 1, by omega⟩
+    simp only [resolveFRef, hfr, hh, hp]
+  | @pathMulti i fr hd p0 r rest o cs hfr hh hp hf _ ih =>
+    obtain ⟨d, h⟩ := ih
+    refine ⟨d + 1, fun d' hle => ?_⟩
+    obtain ⟨d'', rfl⟩ : ∃ d'', d' = d'' + 1 := ⟨d' - 1, by omega⟩
+    simp only [resolveFRef, hfr, hh, hp, hf, h d'' (by omega) p0 [hd] (findObject_mem hf),
+      List.singleton_append]
 
 def FailComplete (E : FEnv) : MemberFailJudgement → Prop
-  | .phys o prev e => ∃ fuel, physical E fuel o prev = .inl (.err e)
-  | .mem o prev rs e => ∀ acc, ∃ fuel, members E fuel o prev rs acc = .err e
-  | .path i e => ∃ fuel, resolveFRef E fuel i = .err e
+  | .phys o prev e => ∃ d, ∀ d', d ≤ d' → o ∈ E.objs →
+      physical E (resolveFRef E d') o prev = .inl (.err e)
+  | .mem o prev rs e => ∃ d, ∀ d', d ≤ d' → ∀ acc, o ∈ E.objs →
+      members E (resolveFRef E d') o prev rs acc = .err e
+  | .path i e => ∃ d, ∀ d', d ≤ d' → resolveFRef E d' i = .err e
 
 theorem member_fail_complete (E : FEnv) (j : MemberFailJudgement) (h : MemberFails E j) :
     FailComplete E j := by
   induction h with
-  | @physNonField o prev hk =>
-    refine ⟨1, ?_⟩
-    simp only [physical]
-    cases hk' : o.kind with
-    | field sh => exact absurd hk' (hk sh)
-    | module => rfl
-    | type => rfl
-    | value => rfl
-    | param => rfl
-  | physOther hk => exact ⟨1, by simp only [physical, hk]⟩
-  | @physAlias o i cs c o' prev e hk hpath hl hf _ ih =>
-    obtain ⟨f1, h1⟩ := member_complete E _ hpath
-    obtain ⟨f2, h2⟩ := ih
-    refine ⟨max f1 f2 + 1, ?_⟩
-    have h1' : resolveFRef E (max f1 f2) i = .ok cs := by
-      rw [(fuel_mono E f1).2.2 _ i (Nat.le_max_left ..) (by rw [h1]; exact fun h => by cases h), h1]
-    have h2' : physical E (max f1 f2) o' prev = .inl (.err e) := by
-      rw [(fuel_mono E f2).1 _ o' prev (Nat.le_max_right ..) (by rw [h2]; exact fun h => by cases h), h2]
-    simp only [physical, hk, h1', hl, hf, h2']
+  | @physNonField o via p prev hc hk =>
+    obtain ⟨d, hd⟩ := member_complete E _ hc
+    exact ⟨d, fun d' hle ho => physical_follows_err E _ prev (hd d' hle) ho (Or.inl hk)⟩
+  | @physOther o via p prev hc hk =>
+    obtain ⟨d, hd⟩ := member_complete E _ hc
+    exact ⟨d, fun d' hle ho => physical_follows_err E _ prev (hd d' hle) ho (Or.inr (Or.inl hk))⟩
+  | @physCycle o via p prev hc hk =>
+    obtain ⟨d, hd⟩ := member_complete E _ hc
+    exact ⟨d, fun d' hle ho => physical_follows_err E _ prev (hd d' hle) ho (Or.inr (Or.inr hk))⟩
   | @memPhys o prev r rest e _ ih =>
-    intro acc
-    obtain ⟨f, h⟩ := ih
-    exact ⟨f + 1, by simp only [members, h]⟩
-  | @memArray o p prev r rest hph hk =>
-    intro acc
-    obtain ⟨f, h⟩ := member_complete E _ hph prev
-    exact ⟨f + 1, by simp only [members, h, hk]⟩
-  | @memMissing o p t tc prev r rest hph hk ht hf =>
-    intro acc
-    obtain ⟨f, h⟩ := member_complete E _ hph prev
-    exact ⟨f + 1, by simp only [members, h, hk, ht, hf]⟩
-  | @memLater o p t tc prev r rest o' e hph hk ht hf _ ih =>
-    intro acc
-    obtain ⟨f1, h1⟩ := member_complete E _ hph prev
-    obtain ⟨f2, h2⟩ := ih (acc ++ [tc ++ [r.name]])
-    refine ⟨max f1 f2 + 1, ?_⟩
-    have h1' : physical E (max f1 f2) o prev = .inr p := by
-      rw [(fuel_mono E f1).1 _ o prev (Nat.le_max_left ..) (by rw [h1]; exact fun h => by cases h), h1]
-    have h2' : members E (max f1 f2) o' r rest (acc ++ [tc ++ [r.name]]) = .err e := by
-      rw [(fuel_mono E f2).2.1 _ o' r rest _ (Nat.le_max_right ..)
-        (by rw [h2]; exact fun h => by cases h), h2]
-    simp only [members, h1', hk, ht, hf, h2']
+    obtain ⟨d, hd⟩ := ih
+    exact ⟨d, fun d' hle acc ho => by simp only [members, hd d' hle ho]⟩
+  | @memArray o via p prev r rest hc hn hk =>
+    obtain ⟨d, hd⟩ := member_complete E _ hc
+    refine ⟨d, fun d' hle acc ho => ?_⟩
+    have hp := physical_follows_phys E _ prev (hd d' hle) ho hn (Or.inr hk)
+    simp only [members, hp, hk]
+  | @memMissing o via p t tc prev r rest hc hn hk ht hf =>
+    obtain ⟨d, hd⟩ := member_complete E _ hc
+    refine ⟨d, fun d' hle acc ho => ?_⟩
+    have hp := physical_follows_phys E _ prev (hd d' hle) ho hn (Or.inl ⟨t, hk⟩)
+    simp only [members, hp, hk, ht, hf]
+  | @memLater o via p t tc prev r rest o' e hc hn hk ht hf _ ih =>
+    obtain ⟨d1, h1⟩ := member_complete E _ hc
+    obtain ⟨d2, h2⟩ := ih
+    refine ⟨max d1 d2, fun d' hle acc ho => ?_⟩
+    have hp := physical_follows_phys E _ prev (h1 d' (by omega)) ho hn (Or.inl ⟨t, hk⟩)
+    simp only [members, hp, hk, ht, hf, h2 d' (by omega) _ (findObject_mem hf)]
   | pathNoHead hfr hh hp hf =>
-    exact ⟨1, by simp only [resolveFRef, hfr, hh, hp, hf]⟩
+    refine ⟨1, fun d' hle => ?_⟩
+    obtain ⟨d'', rfl⟩ : ∃ d'', d' = d'' + 1 := ⟨d' - 1, by omega⟩
+    simp only [resolveFRef, hfr, hh, hp, hf]
   | @pathMem i fr hd p0 r rest o e hfr hh hp hf _ ih =>
-    obtain ⟨f, h⟩ := ih [hd]
-    exact ⟨f + 1, by simp only [resolveFRef, hfr, hh, hp, hf, h]⟩
+    obtain ⟨d, h⟩ := ih
+    refine ⟨d + 1, fun d' hle => ?_⟩
+    obtain ⟨d'', rfl⟩ : ∃ d'', d' = d'' + 1 := ⟨d' - 1, by omega⟩
+    simp only [resolveFRef, hfr, hh, hp, hf, h d'' (by omega) [hd] (findObject_mem hf)]
 
 /-! ### Errors of the member loop are of the three documented kinds -/
 
@@ -489,62 +717,28 @@ def MemberErrKind : Err → Prop
   | .missing _ _ => True
   | _ => False
 
-theorem member_err_kinds (E : FEnv) : ∀ fuel : Nat,
-    (∀ o prev e, physical E fuel o prev = .inl (.err e) → e = Err.noncomposite prev.name prev.rloc) ∧
-    (∀ o prev rs acc e, members E fuel o prev rs acc = .err e → MemberErrKind e) ∧
-    (∀ i e, resolveFRef E fuel i = .err e → MemberErrKind e) := by
-  intro fuel
-  induction fuel with
-  | zero =>
-    refine ⟨?_, ?_, ?_⟩
-    · intro o prev e h; simp [physical] at h
-    · intro o prev rs acc e h; simp [members] at h
-    · intro i e h; simp [resolveFRef] at h
-  | succ fuel ih =>
-    obtain ⟨P, M, R⟩ := ih
-    refine ⟨?_, ?_, ?_⟩
-    · intro o prev e h
-      simp only [physical] at h
-      split at h
-      · split at h
-        · split at h
-          · cases h
-          · split at h
-            · exact P _ _ _ h
-            · cases h
-        · cases h
-        · cases h
-        · cases h
-      · cases h; rfl
-      · cases h
-      · cases h; rfl
-    · intro o prev rs acc e h
-      cases rs with
-      | nil => simp [members] at h
-      | cons r rest =>
-        simp only [members] at h
-        split at h
-        · rename_i res hres
-          subst h
-          rw [P o prev e hres]
-          trivial
-        · split at h
-          · cases h; trivial
-          · split at h
-            · cases h
-            · split at h
-              · cases h; trivial
-              · exact M _ _ _ _ _ h
-          · cases h
-    · intro i e h
-      simp only [resolveFRef] at h
-      split at h
-      · split at h
-        · cases h
-        · cases h
-        · split at h
-          · cases h; trivial
-          · exact M _ _ _ _ _ h
-      · cases h
+theorem member_err_kinds (E : FEnv) (depth i : Nat) (e : Err)
+    (h : resolveFRef E depth i = .err e) : MemberErrKind e := by
+  have hf := (resolveFRef_sound E depth).2 i e h
+  generalize hj : MemberFailJudgement.path i e = j at hf
+  have key : ∀ j, MemberFails E j →
+      match j with
+      | .phys _ _ e => MemberErrKind e
+      | .mem _ _ _ e => MemberErrKind e
+      | .path _ e => MemberErrKind e := by
+    intro j hj
+    induction hj with
+    | physNonField => trivial
+    | physOther => trivial
+    | physCycle => trivial
+    | memPhys _ ih => exact ih
+    | memArray => trivial
+    | memMissing => trivial
+    | memLater _ _ _ _ _ _ ih => exact ih
+    | pathNoHead => trivial
+    | pathMem _ _ _ _ _ ih => exact ih
+  have := key j hf
+  subst hj
+  exact this
 
 end Emboss.Scope
